@@ -120,7 +120,10 @@ const STEPS: &[(&str, &str)] = &[
     ("step through alternative", "def f: if . >= $n then . else (. + 1 // 0) | f end; 0 | f"),
     ("foreach over a one-element array", "def f: if . >= $n then . else foreach [0][] as $x (.; . + 1; f) end; 0 | f"),
     ("foreach over a literal", "def f: if . >= $n then . else foreach 0 as $x (.; . + 1; f) end; 0 | f"),
-    ("step through try", "def f: if . >= $n then . else (. + 1)? | f end; 0 | f"),
+    ("foreach over two values, call at the last", "def f: if . >= $n then . else foreach (1, 2) as $x (.; . + 1; if $x == 2 then f else empty end) end; 0 | f"),
+    ("foreach over array elements, call at the last", "def f: if .[0] >= $n then .[0] else foreach .[1:][] as $x (.; .[0] += $x; if $x == 2 then f else empty end) end; [0, 0, 2] | f"),
+    ("foreach over two values, call at the last, path mode", "def f($i): if $i >= $n then . else foreach (1, 2) as $x (.; .; if $x == 2 then f($i + 1) else empty end) end; [[7]] | [path(f(0))] | length - 1 + $n"),
+    ("step through try","def f: if . >= $n then . else (. + 1)? | f end; 0 | f"),
     ("step through try-catch", "def f: if . >= $n then . else (try (. + 1) catch 0) | f end; 0 | f"),
     ("step through limit(1)", "def f: if . >= $n then . else limit(1; . + 1) | f end; 0 | f"),
     ("foreach over range(1)", "def f: if . >= $n then . else foreach range(1) as $x (.; . + 1; f) end; 0 | f"),
@@ -318,7 +321,7 @@ pub fn main(tier: Tier) -> ! {
     run.sample(json!({"example": progs[progs.len() / 3].code, "name": progs[progs.len() / 3].name}));
     run.sample(json!({"shapes": SHAPES.iter().map(|s| s.0).collect::<Vec<_>>(), "tail_positions": POSITIONS.iter().map(|s| s.0).collect::<Vec<_>>(), "arguments": ARGS.iter().map(|s| s.0).collect::<Vec<_>>(), "consumers": MODES.iter().map(|s| s.0).collect::<Vec<_>>()}));
     run.finish(
-        "generator: 5 ways the recursion reaches the definition (self, child calls parent, grandchild calls grandparent, nested sibling calls sibling calls parent, after a local definition) x 9 tail positions (right of |, of ,, of //, of `as $x |`, then/else, elif, projection of foreach, after a local def, nested pipes and bindings) x 4 argument forms (none, variable, filter, both passed on) x 6 consumers (values, first, limit, label/break, array, try), plus 21 stream generators (incl. path mode) pulled N times, 22 built-in loops, and 13 loops whose step left of the tail call (or whose folded stream) is a one-output generator of another kind (first, array iteration, select, binding, object, if, //, try, try-catch, limit(1), foreach over a literal / a one-element array / range(1)); every program runs N and 2N iterations (N = 1e5; thorough also 1e6) on a worker thread with a fixed 1 MiB stack under a per-thread heap counter: the result must be right, no overflow may occur (caught on an alternate signal stack and attributed to the running program), and the peak live heap at 2N may exceed that at N by at most 64 KiB. transitions = loop iterations executed. non-trivial = every run",
+        "generator: 5 ways the recursion reaches the definition (self, child calls parent, grandchild calls grandparent, nested sibling calls sibling calls parent, after a local definition) x 9 tail positions (right of |, of ,, of //, of `as $x |`, then/else, elif, projection of foreach, after a local def, nested pipes and bindings) x 4 argument forms (none, variable, filter, both passed on) x 6 consumers (values, first, limit, label/break, array, try), plus 21 stream generators (incl. path mode) pulled N times, 22 built-in loops, and 16 loops whose step left of the tail call (or whose folded stream) is a one-output generator of another kind (first, array iteration, select, binding, object, if, //, try, try-catch, limit(1), foreach over a literal / a one-element array / range(1) / several values with the call at the last one, also in path mode); every program runs N and 2N iterations (N = 1e5; thorough also 1e6) on a worker thread with a fixed 1 MiB stack under a per-thread heap counter: the result must be right, no overflow may occur (caught on an alternate signal stack and attributed to the running program), and the peak live heap at 2N may exceed that at N by at most 64 KiB. transitions = loop iterations executed. non-trivial = every run",
         &["built with the shipped evaluation strategy (profile fast: no debug assertions)", "a non-tail-recursive loop of 1e5 iterations needs well over 1 MiB of native stack in this build, so the fixed stack separates the two", "heap is measured per thread by a counting global allocator in the harness"],
     )
 }
